@@ -47,6 +47,8 @@ pub fn std_types() -> Vec<TypeDeclaration> {
             "Mix5",
             vec![("M5", vec![ext("a"), prd("p", "Box"), ext("b"), prd("q", "Box"), ext("c")])],
         ),
+        // two blocks with a pointer field in each of them
+        decl("PB", vec![("KPB", vec![prd("p", "Box"), ext("a"), ext("b"), prd("q", "Box")])]),
         decl("Fun", vec![("ap", vec![ext("x"), cns("k", "_Cont")])]),
         decl(
             "Obj",
